@@ -456,6 +456,11 @@ def okFile : Bytes :=
 
 example : (readAll false (0, 0) [okFile]).err = none ∧ verify (0, 0) [okFile] = .ok ⟨1, 2, 1⟩ := by decide +kernel
 
+/-- non-vacuity of `readLoop_of_recLoop`: the fold succeeds on the records of `okFile` -/
+example : (match applyRecs (0, 0) {} (recLoop 8 (Dec.open [okFile])).1 with
+    | .ok ra' => ra'.ents == [⟨0, 1, 1, none⟩] && ra'.state == ⟨1, 2, 1⟩ && ra'.matched
+    | .error _ => false) = true := by decide +kernel
+
 #print axioms readLoop_of_recLoop
 #print axioms verifyLoop_of_recLoop
 #print axioms verify_agrees
